@@ -180,7 +180,14 @@ func cmdRun(args []string) int {
 	if len(r.Incons) > 0 {
 		return 3
 	}
-	fmt.Printf("OK property=%s tier=%s programs=%d harnesses=%d wall=%.1fs\n", spec.ID, t, r.Programs, len(r.Results), time.Since(r.Start).Seconds())
+	nred := 0
+	for _, hr := range r.Results {
+		if hr.Reduced != "" {
+			nred++
+			fmt.Printf("REDUCED-BOUND property=%s harness=%s %s\n", spec.ID, hr.Name, hr.Reduced)
+		}
+	}
+	fmt.Printf("OK property=%s tier=%s programs=%d harnesses=%d reduced_bound=%d wall=%.1fs\n", spec.ID, t, r.Programs, len(r.Results), nred, time.Since(r.Start).Seconds())
 	return 0
 }
 
@@ -371,6 +378,12 @@ func (r *Runner) symx(pkgs []*FixPkg) {
 		solverTimeout = r.Spec.Timeout(r.Tier)
 	}
 	opts := RunOpts{Bounds: b, Workers: r.Workers, CrossCheck: r.Tier == "thorough", Filter: r.Filter, AbstractMul: r.Spec.AbstractMul}
+	if r.Tier == "thorough" && r.Spec.Bounds != nil {
+		q := r.Spec.Bounds("quick")
+		if q != b {
+			opts.Fallback = &q
+		}
+	}
 	res := runHarnesses(ld, opts)
 	r.Results = append(r.Results, res...)
 	r.Extra["bounds"] = b
@@ -557,6 +570,17 @@ func (r *Runner) writeEvidence() {
 		"traces_validated_against_impl": len(r.Replays) + r.TVAgree,
 		"explanation":           "bounded symbolic execution of the real SSA of freshly generated code; every verdict is an SMT solver answer over all values within the bounds",
 	}
+	var reduced []map[string]string
+	for _, hr := range r.Results {
+		if hr.Reduced != "" {
+			reduced = append(reduced, map[string]string{"harness": hr.Name, "reduced_bound": hr.Reduced, "status": hr.Status})
+		}
+	}
+	cov["reduced_bound_harnesses_n"] = len(reduced)
+	if len(reduced) > 40 {
+		reduced = reduced[:40]
+	}
+	cov["reduced_bound_harnesses"] = reduced
 	for k, v := range r.Extra {
 		cov[k] = v
 	}
